@@ -635,11 +635,23 @@ func runC13(c c13Case) []string {
 	if k, n := once.worst(); n > 1 {
 		failf("the pre-write hook fired %d times for one message (%s): a message re-sent after a redial is still one message", n, k)
 	}
+	// a session that is established at the end (whatever it went through) closes like any
+	// other: its Close reaches the connection, so the serving end sees the session end
+	var serving erpc.Session
+	if len(fails) == 0 && sess.Health() {
+		probe := sess.AsyncCall(route, &LibArg{Rid: "final", Act: "ret", Val: "final"}, new(LibRes), make(chan erpc.CallCmd, 1))
+		if vt.WaitClosed(probe.Done()) && probe.StatusOK() {
+			serving = srvSession(nil)
+		}
+	}
 	// cleanup: make sure the client session is closed
 	done := make(chan struct{})
 	go func() { sess.Close(); close(done) }()
 	if !vt.WaitClosed(done) {
 		failf("%s", vt.Hang("Close of the redial session at the end"))
+	}
+	if serving != nil && !vt.WaitUntilFor(vt.LivenessBound, func() bool { return !serving.Health() }) {
+		failf("the client closed its session (established, after %d redial rounds) but the serving end still has a healthy session: Close did not reach the connection", len(c.Actions))
 	}
 	return fails
 }
@@ -666,7 +678,7 @@ func okCallLocked(sess erpc.Session, route string, fails *[]string, n *int) {
 	}
 }
 
-const ruleC13 = "a client session created by Dial over loopback TCP (process-default protocol, or raw / json / protobuf protocol given to Dial) with redial budget 1 / 3 / unlimited (interval 3 ms), optionally with a user-assigned id, optionally with a dial hook that wraps the connection through ModifySocket on every (re)dial, and optionally with the secure plugin on both peers (every message marked secure), against a harness-owned listener that can kill all connections and refuse new ones; 1-5 generated fault actions: connection killed while idle, killed while a call awaits its (gated) reply, calls and pushes issued while the server is away (unlimited budget), short outage, outage that exhausts the budget (or a long outage with unlimited budget), a dial hook refusing every redial attempt while the server is reachable, a dial hook refusing budget-1 attempts of a round and then accepting (repeatable: the budget is per loss), bursts of concurrent calls, a call issued by the server whose client-side handler is still running at the loss followed by a server call with the same sequence number over the re-established connection; oracle: the pre-write hooks of the dialling peer fire once per message even when it is re-sent after a redial; calls in flight at the loss complete with a connection-class status or their genuine reply (never hang); after the session re-established (redial hook ran again, Health) calls succeed on the same Session value, the user-assigned id is kept and indexed; after exhaustion the close notification fires, the index forgets the session, the pending call and a later call fail with a connection error; unlimited budget survives a long outage; non-trivial = a loss during a call, >=2 losses or exhaustion; distinct by case"
+const ruleC13 = "a client session created by Dial over loopback TCP (process-default protocol, or raw / json / protobuf protocol given to Dial) with redial budget 1 / 3 / unlimited (interval 3 ms), optionally with a user-assigned id, optionally with a dial hook that wraps the connection through ModifySocket on every (re)dial, and optionally with the secure plugin on both peers (every message marked secure), against a harness-owned listener that can kill all connections and refuse new ones; 1-5 generated fault actions: connection killed while idle, killed while a call awaits its (gated) reply, calls and pushes issued while the server is away (unlimited budget), short outage, outage that exhausts the budget (or a long outage with unlimited budget), a dial hook refusing every redial attempt while the server is reachable, a dial hook refusing budget-1 attempts of a round and then accepting (repeatable: the budget is per loss), bursts of concurrent calls, a call issued by the server whose client-side handler is still running at the loss followed by a server call with the same sequence number over the re-established connection; oracle: the pre-write hooks of the dialling peer fire once per message even when it is re-sent after a redial; calls in flight at the loss complete with a connection-class status or their genuine reply (never hang); after the session re-established (redial hook ran again, Health) calls succeed on the same Session value, the user-assigned id is kept and indexed; after exhaustion the close notification fires, the index forgets the session, the pending call and a later call fail with a connection error; unlimited budget survives a long outage; a session that is established at the end is closed and the serving end must see it end; non-trivial = a loss during a call, >=2 losses or exhaustion; distinct by case"
 
 func TestC13Redial(t *testing.T) {
 	rec := vt.NewRec(t, "C13", "redial", ruleC13)
